@@ -1580,6 +1580,10 @@ func (sc *serverConn) closeStream(st *stream, err error) {
 		sc.curClientStreams--
 	}
 	delete(sc.streams, st.id)
+	// Drop the stream's queued frames before anything below can schedule a frame
+	// write (the flow-control refund does): a frame of a closed stream must not be
+	// popped any more.
+	sc.writeSched.CloseStream(st.id)
 	if len(sc.streams) == 0 {
 		sc.setConnState(http.StateIdle)
 		if sc.srv.IdleTimeout > 0 && sc.idleTimer != nil {
@@ -1610,7 +1614,6 @@ func (sc *serverConn) closeStream(st *stream, err error) {
 	st.closeErr = err
 	st.cancelCtx()
 	st.cw.Close() // signals Handler's CloseNotifier, unblocks writes, etc
-	sc.writeSched.CloseStream(st.id)
 }
 
 func (sc *serverConn) processSettings(f *SettingsFrame) error {
